@@ -285,7 +285,7 @@ def _grid(rng, lo, hi, q):
 
 
 def gen_net(rng, n_nodes=None, libs=('lin', 'sat', 'osc', 'leak', 'integ', 'linl'), max_edges=6, uniq='',
-            hier=False, build=None, delays=None, own_nt=True, stable=True, per_node_ops=False, readouts=None):
+            hier=False, build=None, delays=None, own_nt=True, stable=True, per_node_ops=False, readouts=None, bare=0.0):
     """flat (or two-level) circuit; every node has its own parameter values and every state variable a distinct
     initial value, so that positions and trajectories are attributable by value.
     delays: None or callable(rng) -> attrs dict fragment for an edge ({'delay':..,'spread':..})."""
@@ -296,6 +296,11 @@ def gen_net(rng, n_nodes=None, libs=('lin', 'sat', 'osc', 'leak', 'integ', 'linl
         spec['ops'][k + uniq] = {'lib': k, 'name': k + uniq, 'defaults': dict(LIB[k]['defaults'])}
         if rng.random() < 0.3 and not LIB[k].get('array') and not LIB[k].get('complex'):
             spec['ops'][k + uniq]['decl'] = 'dict'      # variables declared as definition dicts (Python builds only)
+        elif bare and not per_node_ops and rng.random() < bare and not LIB[k].get('array') and not LIB[k].get('complex'):
+            # state variables declared bare ('x: output'): their values come from the per-node overrides only
+            spec['ops'][k + uniq]['decl'] = 'bare'
+            for s_ in LIB[k]['state']:
+                spec['ops'][k + uniq]['defaults'][s_] = 0.0
     if any(LIB[k].get('complex') for k in kinds):
         spec['build'] = 'python'          # complex literals in node-level variations are a Python-frontend matter here
     pool = list(range(-96, 97))
@@ -404,6 +409,8 @@ def _vardecl(lib, defaults, op=None):
         if isinstance(val, (list, tuple)):
             val = f'{val[0]!r}{val[1]:+}j'          # complex literal without parentheses
         out[s] = f"output({val})" if (s == L['out'] or L.get('all_out')) else f"variable({val})"
+        if op and op.get('decl') == 'bare':
+            out[s] = out[s].split('(')[0]        # declaration without parentheses ('x: output'): value 0 unless overridden
     for c in L['const']:
         if L.get('array') and c == 'wmid':
             import numpy as np
